@@ -658,9 +658,9 @@ theorem sub_nullable {a b : Shape} (h : sub a b = true) (hb : b.nullable = true)
 
 mutual
 theorem valid_mono (base : Bytes) {a b : Shape} (h : sub a b = true) :
-    (v : Value) → valid base b v = .ok true → valid base a v = .ok true
+    (v : Value) → valid base b v = true → valid base a v = true
   | .null => by
-    intro hv; simp only [valid, Outcome.ok.injEq] at hv ⊢; exact sub_nullable h hv
+    intro hv; simp only [valid] at hv ⊢; exact sub_nullable h hv
   | .int64 _ => by simp only [valid, sub_depth h]; exact id
   | .uint64 _ => by simp only [valid, sub_depth h]; exact id
   | .float64 _ => by simp only [valid, sub_depth h]; exact id
@@ -678,29 +678,21 @@ theorem valid_mono (base : Bytes) {a b : Shape} (h : sub a b = true) :
         simp only [valid]
         exact validAll_mono base h.2 l
 theorem validAll_mono (base : Bytes) {a b : Shape} (h : sub a b = true) :
-    (l : List Value) → validAll base b l = .ok true → validAll base a l = .ok true
+    (l : List Value) → validAll base b l = true → validAll base a l = true
   | [] => by simp [validAll]
   | x :: xs => by
     intro hv
-    simp only [validAll] at hv ⊢
-    cases hx : valid base b x with
-    | panic => simp [hx] at hv
-    | ok r =>
-      cases r with
-      | false => simp [hx] at hv
-      | true =>
-        simp only [hx] at hv
-        rw [valid_mono base h x hx]
-        exact validAll_mono base h xs hv
+    simp only [validAll, Bool.and_eq_true] at hv ⊢
+    exact ⟨valid_mono base h x hv.1, validAll_mono base h xs hv.2⟩
 end
 
 mutual
 /-- A value valid for both inputs of an intersection is valid for the intersection. -/
 theorem valid_inter (base : Bytes) {a b c : Shape} (h : inter a b = some c) :
-    (v : Value) → valid base a v = .ok true → valid base b v = .ok true → valid base c v = .ok true
+    (v : Value) → valid base a v = true → valid base b v = true → valid base c v = true
   | .null => by
     intro h1 h2
-    simp only [valid, Outcome.ok.injEq] at h1 h2 ⊢
+    simp only [valid] at h1 h2 ⊢
     cases a <;> cases b <;> simp [inter] at h
     · subst h; simp_all [nullable]
     · obtain ⟨r, _, rfl⟩ := h; simp_all [nullable]
@@ -722,56 +714,47 @@ theorem valid_inter (base : Bytes) {a b c : Shape} (h : inter a b = some c) :
         simp only [valid]
         exact validAll_inter base hr l
 theorem validAll_inter (base : Bytes) {a b c : Shape} (h : inter a b = some c) :
-    (l : List Value) → validAll base a l = .ok true → validAll base b l = .ok true →
-      validAll base c l = .ok true
+    (l : List Value) → validAll base a l = true → validAll base b l = true →
+      validAll base c l = true
   | [] => by simp [validAll]
   | x :: xs => by
     intro h1 h2
-    simp only [validAll] at h1 h2 ⊢
-    cases hx : valid base a x with
-    | panic => simp [hx] at h1
-    | ok r =>
-      cases r with
-      | false => simp [hx] at h1
-      | true =>
-        cases hy : valid base b x with
-        | panic => simp [hy] at h2
-        | ok r' =>
-          cases r' with
-          | false => simp [hy] at h2
-          | true =>
-            simp only [hx] at h1
-            simp only [hy] at h2
-            rw [valid_inter base h x hx hy]
-            exact validAll_inter base h xs h1 h2
+    simp only [validAll, Bool.and_eq_true] at h1 h2 ⊢
+    exact ⟨valid_inter base h x h1.1 h2.1, validAll_inter base h xs h1.2 h2.2⟩
 end
 
+/-- An enum value is valid for no shape.  (History: before the repair of F-14 / F-C10-2 / F-C19-1
+the `Enum` arm was `unimplemented!`, `valid` returned an `Outcome Bool`, and the lemma here was
+`valid_total`: "no panic on enum-free values".  `is_valid_value` is now a total `Bool` function:
+totality is the type of `valid`.) -/
+theorem valid_enum (base : Bytes) (s : Shape) (e : Bytes) : valid base s (.enum e) = false := by
+  cases s <;> simp [valid]
+
 mutual
-/-- On enum-free values `is_valid_value` never panics. -/
-theorem valid_total (base : Bytes) (s : Shape) :
-    (v : Value) → v.enumFree = true → ∃ r, valid base s v = .ok r
-  | .null => fun _ => by simp only [valid]; exact ⟨_, rfl⟩
-  | .int64 _ => fun _ => by simp only [valid]; exact ⟨_, rfl⟩
-  | .uint64 _ => fun _ => by simp only [valid]; exact ⟨_, rfl⟩
-  | .float64 _ => fun _ => by simp only [valid]; exact ⟨_, rfl⟩
-  | .string _ => fun _ => by simp only [valid]; exact ⟨_, rfl⟩
-  | .boolean _ => fun _ => by simp only [valid]; exact ⟨_, rfl⟩
-  | .enum _ => by intro h; simp [Value.enumFree] at h
-  | .list l => by
+/-- No shape accepts a value with an enum leaf, at any nesting: an accepted value is enum-free. -/
+theorem valid_enumFree (base : Bytes) :
+    (s : Shape) → (v : Value) → valid base s v = true → v.enumFree = true
+  | _, .null => fun _ => rfl
+  | _, .int64 _ => fun _ => rfl
+  | _, .uint64 _ => fun _ => rfl
+  | _, .float64 _ => fun _ => rfl
+  | _, .string _ => fun _ => rfl
+  | _, .boolean _ => fun _ => rfl
+  | s, .enum e => by intro h; rw [valid_enum] at h; cases h
+  | named _, .list _ => by intro h; simp [valid] at h
+  | list _ s', .list l => by
     intro h
-    simp only [Value.enumFree] at h
-    cases s with
-    | named n => simp only [valid]; exact ⟨_, rfl⟩
-    | list n s' => simp only [valid]; exact validAll_total base s' l h
-theorem validAll_total (base : Bytes) (s : Shape) :
-    (l : List Value) → Value.enumFreeList l = true → ∃ r, validAll base s l = .ok r
-  | [] => fun _ => by simp only [validAll]; exact ⟨_, rfl⟩
+    simp only [valid] at h
+    simp only [Value.enumFree]
+    exact validAll_enumFree base s' l h
+theorem validAll_enumFree (base : Bytes) (s : Shape) :
+    (l : List Value) → validAll base s l = true → Value.enumFreeList l = true
+  | [] => fun _ => rfl
   | x :: xs => by
     intro h
-    simp only [Value.enumFreeList, Bool.and_eq_true] at h
-    obtain ⟨r, hr⟩ := valid_total base s x h.1
-    obtain ⟨r', hr'⟩ := validAll_total base s xs h.2
-    cases r <;> simp [validAll, hr, hr']
+    simp only [validAll, Bool.and_eq_true] at h
+    simp only [Value.enumFreeList, Bool.and_eq_true]
+    exact ⟨valid_enumFree base s x h.1, validAll_enumFree base s xs h.2⟩
 end
 
 end Shape
